@@ -206,6 +206,37 @@ int main(void)
             else if (!strcmp(sub, "release")) { MessageQueue_releaseAllQueuedASDUs(mq); out_n = 0; }
             mq_dump();
         }
+        else if (!strcmp(cmd, "sch")) {
+            /* the scheduler on a real connection: sendASDUInternal / sendWaitingASDUs with a given k and high-priority ring size;
+               printed: the return value, the ASDUs written (payload ids), the k-buffer occupancy, isRunning, the ring counters */
+            char sub[32]; x = 0; sscanf(line, "%*s %31s %d %d", sub, &x, &y);
+            if (!strcmp(sub, "new")) {
+                fresh(x);
+                HighPriorityASDUQueue_destroy(slave->connectionAsduQueue);
+                slave->connectionAsduQueue = HighPriorityASDUQueue_create(y);
+                con->highPrioQueue = slave->connectionAsduQueue;
+                con->state = M_CON_STATE_STARTED; asdu_id = 0;
+            }
+            else if (!strcmp(sub, "resp")) { sCS101_StaticASDU st; bool r = sendASDUInternal(con, mk_asdu(&st, x, asdu_id++)); printf("schresp %d\n", r); }
+            else if (!strcmp(sub, "drain")) { sendWaitingASDUs(con); printf("schdrain\n"); }
+            else if (!strcmp(sub, "ack")) {
+                /* the peer acknowledges the x oldest sent ASDUs */
+                int kk = con->maxSentASDUs, occ = con->oldestSentASDU == -1 ? 0 : ((con->newestSentASDU - con->oldestSentASDU + kk) % kk) + 1;
+                if (x > occ) x = occ;
+                if (x > 0) { int nr = con->sentASDUs[(con->oldestSentASDU + x - 1) % kk].seqNo; checkSequenceNumber(con, nr); }   /* seqNo = the N(R) that acknowledges the entry */
+            }
+            else if (!strcmp(sub, "wmode")) sock->writeMode = x;
+            else if (!strcmp(sub, "stop")) con->state = M_CON_STATE_STOPPED;
+            {
+                static uint8_t tx[70000]; int n = Sim_takeTx(sock, tx, sizeof tx), i = 0;
+                int kk = con->maxSentASDUs, occ = con->oldestSentASDU == -1 ? 0 : ((con->newestSentASDU - con->oldestSentASDU + kk) % kk) + 1;
+                printf("sch tx=");
+                while (i + 1 < n && tx[i] == 0x68) { int l = tx[i + 1]; if (l >= 12) printf("%d,", tx[i + 12] | tx[i + 13] << 8); else printf("u,"); i += 2 + l; }
+                HighPriorityASDUQueue q = con->highPrioQueue;
+                printf(" k=%d run=%d hp n=%d first=%ld last=%ld lib=%ld\n", occ, (int) con->isRunning, q->entryCounter, q->firstEntry ? (long) (q->firstEntry - q->buffer) : -1,
+                       q->lastEntry ? (long) (q->lastEntry - q->buffer) : -1, q->lastInBufferEntry ? (long) (q->lastInBufferEntry - q->buffer) : -1);
+            }
+        }
         else if (!strcmp(cmd, "hp")) {
             char sub[32]; sscanf(line, "%*s %31s %d", sub, &x);
             if (!strcmp(sub, "new")) { if (hq) HighPriorityASDUQueue_destroy(hq); hq = HighPriorityASDUQueue_create(x); asdu_id = 0; }
